@@ -5,7 +5,7 @@ import Rangers.Proofs.C13Dkg
 namespace Rangers.Proofs.C13
 open Polynomial Rangers.Model.Shamir
 
-variable {r : Nat} {G : Type} [AddCommGroup G] [Module (ZMod r) G]
+variable {r : Nat} {G : Type}
 
 /-- With exactly `k` entries neither the first iteration order nor the draws are used. -/
 theorem recoverGroupSignature_eq_len (ops : Ops G) (k : Nat) (m : List (Nat × Option G)) (hk : m.length = k)
@@ -18,23 +18,24 @@ theorem admissible_of_ord2 (k : Nat) (c : Choice (Nat × Option G)) (h2 : ∀ l,
     Admissible (⟨id, List.replicate k 0, c.ord2⟩ : Choice (Nat × Option G)) k k :=
   ⟨fun l => List.Perm.refl l, h2, by simp, fun i hi => by simp [List.getD, List.getElem?_replicate, hi]⟩
 
-/-- Invariant of a generator fed with honest shares of `f` (share function `s`). -/
-structure GenInv (ops : Ops G) (r : Nat) (k : Nat) (s : Nat → Nat) (h target : G) (st : SignGen G) : Prop where
+/-- Invariant of a generator fed with the honest shares `sig id` (any point type `M`). -/
+structure GenInv {M : Type} (k : Nat) (sig : Nat → M) (target : M) (st : SignGen M) : Prop where
   hk : st.k = k
   cases : st.groupSign = some target ∨
     (st.groupSign = none ∧ st.witnesses.length < k ∧ (st.witnesses.map Prod.fst).Nodup ∧
-      ∀ e ∈ st.witnesses, e.2 = some (ops.mul h (s e.1)))
+      ∀ e ∈ st.witnesses, e.2 = some (sig e.1))
 
-theorem feed_inv [Fact r.Prime] (ops : Ops G) (hops : LawfulOps r ops) (isValid : G → Bool)
-    (f : (ZMod r)[X]) (k : Nat) (hk0 : 0 < k) (hdeg : f.degree < k)
-    (s : Nat → Nat) (hs : ∀ x, ((s x : Nat) : ZMod r) = f.eval (x : ZMod r)) (h : G)
-    (hval : isValid (f.eval 0 • h) = true) :
-    ∀ (arr : List (Nat × Option G × Choice (Nat × Option G))) (st : SignGen G),
-      GenInv ops r k s h (f.eval 0 • h) st →
-      (∀ a ∈ arr, a.2.1 = some (ops.mul h (s a.1)) ∧ ∀ l, (a.2.2.ord2 l).Perm l) →
+theorem feed_inv {M : Type} (ops : Ops M) (r : Nat) (isValid : M → Bool)
+    (k : Nat) (hk0 : 0 < k) (sig : Nat → M) (t : M)
+    (hrec : ∀ ids : List Nat, ids.length = k → IdsDistinct r ids →
+      recoverWith ops r ids (ids.map sig) = .ok (some t))
+    (hval : isValid t = true) :
+    ∀ (arr : List (Nat × Option M × Choice (Nat × Option M))) (st : SignGen M),
+      GenInv k sig t st →
+      (∀ a ∈ arr, a.2.1 = some (sig a.1) ∧ ∀ l, (a.2.2.ord2 l).Perm l) →
       (∀ x ∈ st.witnesses.map Prod.fst ++ arr.map (·.1), ∀ y ∈ st.witnesses.map Prod.fst ++ arr.map (·.1),
           x % r = y % r → x = y) →
-      ∃ st', feed ops r isValid st arr = .ok st' ∧ GenInv ops r k s h (f.eval 0 • h) st' ∧
+      ∃ st', feed ops r isValid st arr = .ok st' ∧ GenInv k sig t st' ∧
         (st'.groupSign = none → ∀ x ∈ st.witnesses.map Prod.fst ++ arr.map (·.1), x ∈ st'.witnesses.map Prod.fst) := by
   intro arr
   induction arr with
@@ -44,7 +45,7 @@ theorem feed_inv [Fact r.Prime] (ops : Ops G) (hops : LawfulOps r ops) (isValid 
     obtain ⟨x, sg, c⟩ := a
     obtain ⟨hsg, hc2⟩ := hhon (x, sg, c) (by simp)
     simp only at hsg hc2
-    have hhon' : ∀ a ∈ arr, a.2.1 = some (ops.mul h (s a.1)) ∧ ∀ l, (a.2.2.ord2 l).Perm l :=
+    have hhon' : ∀ a ∈ arr, a.2.1 = some (sig a.1) ∧ ∀ l, (a.2.2.ord2 l).Perm l :=
       fun a ha => hhon a (by simp [ha])
     rcases hinv.cases with hrec | ⟨hnone, hlen, hnd, hw⟩
     · -- already recovered: nothing changes
@@ -60,7 +61,7 @@ theorem feed_inv [Fact r.Prime] (ops : Ops G) (hops : LawfulOps r ops) (isValid 
       rcases hinv'.cases with h1 | ⟨h1, _⟩
       · rw [h1] at hn; cases hn
       · -- st' not recovered although st was: impossible since feed on a recovered state is the identity
-        have : ∀ (arr : List (Nat × Option G × Choice (Nat × Option G))), feed ops r isValid st arr = .ok st := by
+        have : ∀ (arr : List (Nat × Option M × Choice (Nat × Option M))), feed ops r isValid st arr = .ok st := by
           intro arr; induction arr with
           | nil => rfl
           | cons b arr ihb =>
@@ -103,7 +104,7 @@ theorem feed_inv [Fact r.Prime] (ops : Ops G) (hops : LawfulOps r ops) (isValid 
           intro p hp q hq hpq
           simp only [List.mem_singleton] at hq
           subst hq; subst hpq; exact hxn hp
-        have hw' : ∀ e ∈ st.witnesses ++ [(x, sg)], e.2 = some (ops.mul h (s e.1)) := by
+        have hw' : ∀ e ∈ st.witnesses ++ [(x, sg)], e.2 = some (sig e.1) := by
           intro e he
           rcases List.mem_append.1 he with he | he
           · exact hw e he
@@ -120,20 +121,18 @@ theorem feed_inv [Fact r.Prime] (ops : Ops G) (hops : LawfulOps r ops) (isValid 
               · simp only [List.map_append, List.map_cons, List.map_nil, List.mem_append, List.mem_singleton,
                   List.mem_cons] at hp hq ⊢
                 tauto
-          have hrecv : recoverGroupSignature ops r st.k (st.witnesses ++ [(x, sg)]) c = .ok (some (f.eval 0 • h)) := by
+          have hrecv : recoverGroupSignature ops r st.k (st.witnesses ++ [(x, sg)]) c = .ok (some t) := by
             rw [hinv.hk, recoverGroupSignature_eq_len ops k _ hlenk c]
-            have hadm := admissible_of_ord2 (G := G) k c hc2
-            rw [← hlenk] at hadm
-            have := recoverGroupSignature_poly ops hops f k hk0 hdeg s hs h (st.witnesses ++ [(x, sg)])
-              (by omega) hdist hw' ⟨id, List.replicate k 0, c.ord2⟩ (by rw [hlenk] at hadm ⊢; exact hadm)
-            exact this
+            have hadm := admissible_of_ord2 (G := M) k c hc2
+            exact recoverGroupSignature_of_recoverWith ops r k hk0 sig t hrec (st.witnesses ++ [(x, sg)])
+              (by omega) hdist hw' ⟨id, List.replicate k 0, c.ord2⟩ (by rw [hlenk]; exact hadm)
           have hstep : addWitnessSign ops r isValid st x sg c =
-              .ok (⟨st.k, st.witnesses ++ [(x, sg)], some (f.eval 0 • h)⟩, true, true) := by
+              .ok (⟨st.k, st.witnesses ++ [(x, sg)], some t⟩, true, true) := by
             unfold addWitnessSign
             rw [hsr, hmem']
             simp only [Bool.false_eq_true, if_false]
             rw [if_pos hreach, hrecv]
-          have hinv1 : GenInv ops r k s h (f.eval 0 • h) ⟨st.k, st.witnesses ++ [(x, sg)], some (f.eval 0 • h)⟩ :=
+          have hinv1 : GenInv k sig t ⟨st.k, st.witnesses ++ [(x, sg)], some t⟩ :=
             ⟨hinv.hk, Or.inl rfl⟩
           obtain ⟨st', hf, hinv', hall⟩ := ih _ hinv1 hhon' (fun p hp q hq => hmod p (by
             simp only [List.map_append, List.map_cons, List.map_nil, List.mem_append, List.mem_cons, List.mem_singleton] at hp ⊢; tauto) q (by
@@ -148,7 +147,7 @@ theorem feed_inv [Fact r.Prime] (ops : Ops G) (hops : LawfulOps r ops) (isValid 
             rw [hsr, hmem']
             simp only [Bool.false_eq_true, if_false]
             rw [if_neg hreach]
-          have hinv1 : GenInv ops r k s h (f.eval 0 • h) ⟨st.k, st.witnesses ++ [(x, sg)], st.groupSign⟩ :=
+          have hinv1 : GenInv k sig t ⟨st.k, st.witnesses ++ [(x, sg)], st.groupSign⟩ :=
             ⟨hinv.hk, Or.inr ⟨hnone, by have := hinv.hk; show (st.witnesses ++ [(x, sg)]).length < k; omega, hnd', hw'⟩⟩
           obtain ⟨st', hf, hinv', hall⟩ := ih _ hinv1 hhon' (fun p hp q hq => hmod p (by
             simp only [List.map_append, List.map_cons, List.map_nil, List.mem_append, List.mem_cons, List.mem_singleton] at hp ⊢; tauto) q (by
